@@ -47,7 +47,7 @@ func specIsLast(n *Node) bool {
 //@   ensures fresh: fresh(result) && result.nodes != nil && len(result.nodes.view) == 0
 
 //@ func gtree.stack.dfs
-//@   requires chain: chain(s) && len(s.nodes.view) >= 1
+//@   requires chain: chain(s)
 //@   requires cur: current != nil && current.parent == nil && len(current.children) == 0 && current.hierarchy >= 2
 //@   requires orphan: forall q *Node, i int :: {q.children[i]} 0 <= i && i < len(q.children) ==> q.children[i] != current
 //@   modifies s.nodes.view, list.Element.backOf, Node.children, Node.parent
@@ -55,6 +55,10 @@ func specIsLast(n *Node) bool {
 //@   ensures merge [C01,C03]: current.hierarchy <= old(len(s.nodes.view)) + 1 && old(hasChildNamed(as(s.nodes.view[current.hierarchy-2], Node), current.name)) ==> len(s.nodes.view) == current.hierarchy && as(last(s.nodes.view), Node).name == current.name && contains(old(as(s.nodes.view[current.hierarchy-2], Node).children), last(s.nodes.view)) && (forall q *Node :: {q.children} q.children == old(q.children)) && (forall q *Node :: {q.parent} q.parent == old(q.parent))
 //@   ensures attach [C01,C02]: current.hierarchy <= old(len(s.nodes.view)) + 1 && !old(hasChildNamed(as(s.nodes.view[current.hierarchy-2], Node), current.name)) ==> len(s.nodes.view) == current.hierarchy && last(s.nodes.view) == current && current.parent == old(s.nodes.view[current.hierarchy-2]) && current.parent.children == old(as(s.nodes.view[current.hierarchy-2], Node).children) ++ seqof(current) && (forall q *Node :: {q.children} q != current.parent ==> q.children == old(q.children)) && (forall q *Node :: {q.parent} q != current ==> q.parent == old(q.parent))
 //@   ensures prefix: current.hierarchy <= old(len(s.nodes.view)) + 1 ==> take(s.nodes.view, current.hierarchy - 1) == take(old(s.nodes.view), current.hierarchy - 1)
+//@   ensures attached [C02]: result ==> len(s.nodes.view) >= 1 && as(last(s.nodes.view), Node).name == current.name && as(last(s.nodes.view), Node).hierarchy == current.hierarchy && as(last(s.nodes.view), Node).parent != nil
+//@   ensures reported [C02]: result == (current.hierarchy <= old(len(s.nodes.view)) + 1)
+//@   ensures untouched [C02]: !result ==> (forall q *Node :: {q.children} q.children == old(q.children)) && (forall q *Node :: {q.parent} q.parent == old(q.parent))
+//@   ensures mono [C02]: forall q *Node :: {q.children} len(old(q.children)) <= len(q.children) && take(q.children, len(old(q.children))) == old(q.children)
 //@ loop gtree.stack.dfs#1
 //@   invariant popped: s.nodes.view == take(old(s.nodes.view), size - $i) && size == len(old(s.nodes.view))
 //@   invariant heap: (forall q *Node :: {q.children} q.children == old(q.children)) && (forall q *Node :: {q.parent} q.parent == old(q.parent))
@@ -613,3 +617,46 @@ func specPreorderAll(roots []*Node, i int) []*Node {
 //@   ensures notroot [C03]: root != nil && root.hierarchy != 1 ==> result == ErrNotRoot && cbTrace == old(cbTrace)
 //@   ensures walk [C03,C05,C13]: root != nil && root.hierarchy == 1 ==> (exists c *config :: {c.massive} fresh(c) && (!c.massive ==> (result == nil ==> !cbFailed && cbTrace == old(cbTrace) ++ specPreorder(root)) && (cbFailed ==> result == cbLastErr && result != nil) && (c.encode == encodeDefault && (result == nil || cbFailed) ==> grown(c.lastNodeFormat, c.intermedialNodeFormat, root))))
 //@ applies fromRootWalk to gtree.WalkFromRoot, gtree.WalkProgrammably
+
+// ---------------------------------------------------------------------------------------------
+// node_generator.go, root_generator.go
+
+//@ func gtree.newNodeGenerator
+//@   ensures fresh: fresh(result) && result.parser != nil && md.parserOK(result.parser) && !result.parser.isSharpRoot && result.parser.spaces == 0 && result.parser.sep == ""
+
+//@ func gtree.nodeGenerator.handleErr
+//@   ensures empty [C02]: err == md.ErrEmptyText ==> result == errEmptyText
+//@   ensures format [C02]: err == md.ErrIncorrectFormat ==> result != nil && isType(result, inputFormatError) && as(result, inputFormatError).row == row
+//@   ensures blank [C02,C15]: err == md.ErrBlankLine ==> result == nil
+//@   ensures other [C14]: err != md.ErrEmptyText && err != md.ErrIncorrectFormat && err != md.ErrBlankLine ==> result == err
+
+//@ func gtree.nodeGenerator.generate
+//@   requires nn: ng != nil && md.parserOK(ng.parser)
+//@   modifies ng.parser.isSharpRoot, ng.parser.spaces, ng.parser.sep
+//@   ensures st': md.parserOK(ng.parser)
+//@   ensures blank [C02,C12,C15]: md.allSpace(row) ==> result0 == nil && result1 == nil && ng.parser.isSharpRoot == old(ng.parser.isSharpRoot) && ng.parser.spaces == old(ng.parser.spaces) && ng.parser.sep == old(ng.parser.sep)
+//@   ensures one [C12]: !md.allSpace(row) ==> (result0 != nil) == (result1 == nil)
+//@   ensures node [C01,C12]: result0 != nil ==> fresh(result0) && result0.hierarchy >= 1 && result0.parent == nil && len(result0.children) == 0 && result0.index == idx
+//@   ensures heading [C01,C15]: !md.allSpace(row) && len(row) > 0 && row[0] == '#' && md.specHeadingText(row) != "" ==> result0 != nil && result0.hierarchy == 1 && result0.name == md.specHeadingText(row)
+//@   ensures item [C01,C02,C15]: !md.allSpace(row) && len(row) > 0 && row[0] != '#' && md.specItemShape(old(ng.parser.sep), old(ng.parser.spaces), row) && md.specItemText(row) != "" ==> result0 != nil && result0.name == md.specItemText(row) && result0.hierarchy == md.specDepth(old(ng.parser.spaces), row) + 1 + (ng.parser.isSharpRoot ? 1 : 0)
+//@   ensures reject [C02]: !md.allSpace(row) && len(row) > 0 && row[0] != '#' && !md.specItemShape(old(ng.parser.sep), old(ng.parser.spaces), row) ==> result1 != nil && isType(result1, inputFormatError) && as(result1, inputFormatError).row == row
+//@   ensures empty [C02]: !md.allSpace(row) && len(row) > 0 && ((row[0] == '#' && md.specHeadingText(row) == "") || (row[0] != '#' && md.specItemShape(old(ng.parser.sep), old(ng.parser.spaces), row) && md.specItemText(row) == "")) ==> result1 == errEmptyText
+
+//@ pred genOK(rg *rootGeneratorSimple): rg != nil && rg.counter != nil && rg.scanner != nil && rg.nodeGenerator != nil && rg.nodeGenerator.parser != nil && md.parserOK(rg.nodeGenerator.parser) && 0 <= rg.scanner.pos && rg.scanner.pos <= len(rg.scanner.lines)
+
+//@ func gtree.newRootGeneratorSimple
+//@   ensures fresh: fresh(result) && genOK(result) && result.scanner.pos == 0 && !result.scanner.failed && !result.nodeGenerator.parser.isSharpRoot && result.nodeGenerator.parser.spaces == 0 && result.nodeGenerator.parser.sep == ""
+
+//@ func gtree.rootGeneratorSimple.generate
+//@   requires ok: genOK(rg)
+//@   modifies Node.children, Node.parent, list.List.view, list.Element.backOf, rg.counter.n, rg.scanner.pos, rg.scanner.failed, rg.nodeGenerator.parser.isSharpRoot, rg.nodeGenerator.parser.spaces, rg.nodeGenerator.parser.sep
+//@   ensures roots [C01,C12]: result1 == nil ==> (forall k int :: {result0[k]} 0 <= k && k < len(result0) ==> result0[k] != nil && result0[k].hierarchy == 1)
+//@   ensures readerr [C14]: rg.scanner.failed ==> result1 != nil
+//@   ensures consumed [C02]: result1 == nil ==> rg.scanner.pos == len(rg.scanner.lines) && !rg.scanner.failed
+//@   ensures nilres [C12]: result1 != nil ==> len(result0) == 0 || rg.scanner.failed
+//@ loop gtree.rootGeneratorSimple.generate#1
+//@   invariant ok: genOK(rg)
+//@   invariant roots: forall k int :: {roots[k]} 0 <= k && k < len(roots) ==> roots[k] != nil && roots[k].hierarchy == 1
+//@   invariant open: stack != nil ==> chain(stack)
+//@   invariant closed [C02]: stack == nil ==> len(roots) == 0
+//@   decreases len(rg.scanner.lines) - rg.scanner.pos
